@@ -305,6 +305,15 @@ def check_history(role, hist, delta, deviations=None):
             over = True
         obs_sig.append((tuple(w[0] for w in wire), tuple(x[0] for x in st['inds']), 'close' in st['log'], sta, st['timer'], st['sock']))
         if deviations:
+            # loop order (network, then outgoing queue, then timer): once the peer's A-ABORT or its close is readable at a loop
+            # head, nothing more is taken from the outgoing side except for events that were already queued at that head
+            for d in st.get('devinfo', []):
+                ending = d['ev'][0] == 'close' or (d['ev'][0] in ('pdu', 'bytes', 'bytes_close') and bytes(d['ev'][1][:1]) == b'\x07')
+                if ending:
+                    later = [w[0] for w in e2.summarize_wire(st['wire'][d['wire_len']:])].count('P-DATA-TF')
+                    if later > d['pending']:
+                        viol.append(('c05:inv:outgoing-taken-before-network', '%d P-DATA-TF PDUs were sent after the peer\'s %s had become readable '
+                                     '(%d events were pending at that loop head) (%s)' % (later, 'close' if d['ev'][0] == 'close' else 'A-ABORT', d['pending'], where)))
             prev_state = sta
             continue
         # ---- lock-step with the model
